@@ -376,6 +376,42 @@ impl<ChannelSigner: EcdsaChannelSigner> OnchainTxHandler<ChannelSigner> {
 	}
 }
 
+#[cfg(feature = "verif_hooks")]
+impl<ChannelSigner: EcdsaChannelSigner> OnchainTxHandler<ChannelSigner> {
+	/// Verification hook (add-only, C11): the claim bookkeeping that reorg handling acts on.
+	/// Returns `(claimable, locktimed, awaiting)`: every entry of `claimable_outpoints` as
+	/// `(outpoint, creation_height, its claim id has a pending_claim_requests entry)`; every outpoint
+	/// of `locktimed_packages` with the locktime key it is filed under; every entry of the handler's
+	/// own `onchain_events_awaiting_threshold_conf` as `(txid, height, is Claim (else
+	/// ContentiousOutpoint))`. All sorted.
+	pub(crate) fn verif_claims_view(
+		&self,
+	) -> (Vec<(BitcoinOutPoint, u32, bool)>, Vec<(BitcoinOutPoint, u32)>, Vec<(Txid, u32, bool)>) {
+		let mut claimable: Vec<(BitcoinOutPoint, u32, bool)> = self
+			.claimable_outpoints
+			.iter()
+			.map(|(o, (id, h))| (*o, *h, self.pending_claim_requests.contains_key(id)))
+			.collect();
+		claimable.sort();
+		let mut locktimed: Vec<(BitcoinOutPoint, u32)> = Vec::new();
+		for (lt, ps) in self.locktimed_packages.iter() {
+			for p in ps.iter() {
+				for o in p.outpoints() {
+					locktimed.push((*o, *lt));
+				}
+			}
+		}
+		locktimed.sort();
+		let mut awaiting: Vec<(Txid, u32, bool)> = self
+			.onchain_events_awaiting_threshold_conf
+			.iter()
+			.map(|e| (e.txid, e.height, matches!(e.event, OnchainEvent::Claim { .. })))
+			.collect();
+		awaiting.sort();
+		(claimable, locktimed, awaiting)
+	}
+}
+
 const SERIALIZATION_VERSION: u8 = 1;
 const MIN_SERIALIZATION_VERSION: u8 = 1;
 
